@@ -7,6 +7,7 @@
    the statements below hold for that grammar's parser on all inputs. *)
 From Coq Require Import List ZArith Bool.
 From TM Require Import Gram.Cfg Gram.PTables Gram.Run Gram.Derive Gram.Validator Gram.CertGen Gram.Validator_proofs.
+From TM Require Import Gram.ValidatorLive Gram.ValidatorLive_proofs.
 Import ListNotations.
 Local Open Scope Z_scope.
 
@@ -65,10 +66,23 @@ Proof.
   exact (parse_error_position g m nstates finals nl ft ann Hm Hc i (input_index_lt _ _ _ Hi) ws fuel nt eoi off eoff k Hw Hi He).
 Qed.
 
-(* NOT proved (partial): "the error is not reported EARLIER than the first offending token", i.e. the k tokens
-   consumed before the error are a prefix of some sentence (the correct-prefix property; needs every item of
-   the certificate to be justified by a viable prefix).  It is judged on every sampled input by the
-   viable-prefix recogniser Derive.viable_dec. *)
+(* the error is not reported EARLIER than the first offending token (correct-prefix property): the k tokens
+   shifted before the error are a prefix of some sentence.  Needs the second validator check_live (every state
+   has an item, the symbols after every dot are productive, every item [A -> . alpha] is justified by an item
+   of the same state through well-founded chains); rk is an untrusted rank hint. *)
+Theorem C01_error_not_early :
+  forall g m nstates finals nl ft ann rk,
+  (forall s a more, m_act m s a more = m_act m s a []) ->
+  check g m nstates finals nl ft ann = true ->
+  check_live g nstates ann rk = true ->
+  forall i nt eoi ws fuel off eoff k,
+  nth_error (g_inputs g) i = Some (nt, eoi) -> toks_ok g ws ->
+  fst (parse fuel m finals i ws) = SyntaxError off eoff k ->
+  exists z, toks_ok g z /\ sentence g nt eoi (firstn (Z.to_nat k) ws ++ z).
+Proof.
+  intros g m nstates finals nl ft ann rk Hm Hc Hl i nt eoi ws fuel off eoff k Hi Hw He.
+  exact (parse_error_viable g m nstates finals nl ft ann rk Hc Hl i (input_index_lt _ _ _ Hi) nt eoi Hi Hm ws fuel off eoff k Hw He).
+Qed.
 
 (* both table encodings fall under the theorems *)
 Theorem C01_machines_look_one_token_ahead :
@@ -94,8 +108,13 @@ Proof.
   split; vm_compute; reflexivity.
 Qed.
 
+Example C01_check_live_holds_on_real_tables :
+  let c := fst (gen_cert g0 400) in check_live g0 7 c (live_ranks g0 c) = true.
+Proof. vm_compute. reflexivity. Qed.
+
 Print Assumptions C01_parser_sound.
 Print Assumptions C01_parser_complete.
 Print Assumptions C01_parser_never_crashes.
 Print Assumptions C01_error_not_late.
+Print Assumptions C01_error_not_early.
 Print Assumptions C01_machines_look_one_token_ahead.
